@@ -9,7 +9,7 @@ META = {
         "level": "model_checking",
         "rule": "every scenario = geometry (N buckets, bucket length, boundary) x thread programs (1-2 of add/count/values at timestamps on both sides of the boundary); for each scenario ALL interleavings at atomic-access granularity are enumerated by stateless DFS with global-state-key pruning; an outcome is non-trivial/distinct by its vector of per-read results plus final per-bucket contents",
         "assumptions": [A_SHIM, A_OVERLAY, "2-3 threads, at most 2 operations each; operation timestamps within one bucket length of each other (the property's premise)"],
-        "budget_quick": 100,
+        "budget_quick": 240,
         "budget_thorough": 1200,
         "text": "Exhaustive enumeration of thread interleavings of the real BucketLeapArray code at the granularity of individual atomic accesses: every 2-thread scenario (<=2 operations per thread, timestamps on both sides of a bucket / cycle boundary, 3-5 geometries) is explored completely (all interleavings, fair scheduling of the TryLock/Gosched spin); 3-thread scenarios are explored to a preemption bound (quick) or completely / to bound 3 (thorough). Each execution is judged by an oracle that decodes every reported sum into the individual recorded amounts.",
         "level_note": "Bounded: 2-3 goroutines, <=2 operations each, sequentially consistent atomics (Go's sync/atomic contract). Plain (non-atomic) memory races are outside this check (C15 runs the race detector). The 'randomized large-scale stress' of the quantifier text is sampling and is deliberately not part of the deciding step.",
@@ -21,7 +21,7 @@ META["C08"] = {
     "level": "model_checking",
     "rule": "breadth-first search over all operation histories (add of each event kind/amount, update-concurrency, clock advances by 1 / bucket-1 / bucket / bucket+1 / interval-1 / interval / interval+1 / >3 intervals, refreshing array reads) up to the depth bound, per array geometry and creation time (near zero, aligned, unaligned); after EVERY transition every getter of EVERY constructible view and of BaseStatNode is compared with the aligned-bucket reference; states are deduplicated on (implementation bucket dump relative to now, reference aggregates, clock phase); a distinct outcome = scenario + vector of values the implementation returned",
     "assumptions": [A_CLOCK, A_OVERLAY, "single goroutine (concurrency is C09)", "documented conventions mirrored: BaseStatNode.AvgRT integer average, MinRT floor 1 ms / default 60000, AvgRT of an empty window not compared, GetPreviousQPS compared only for views shorter than the array by one view bucket"],
-    "budget_quick": 90,
+    "budget_quick": 240,
     "budget_thorough": 1200,
     "text": "Explicit-state exploration of the real BucketLeapArray / SlidingWindowMetric / BaseStatNode code against a list-of-events reference: all histories to the depth bound over 5 (quick) / 10 (thorough) geometries x 4 creation times, plus the complete table of view constructibility against 'tiles the buckets exactly'.",
     "level_note": "Bounded depth (5 quick / 7 thorough) and finite alphabets chosen from the code's boundary constants; unbounded time and histories are not covered.",
@@ -32,7 +32,7 @@ META["C02"] = {
     "level": "model_checking",
     "rule": "sequential: per configuration (statistics geometry x rule set: thresholds 0/0.5/1/2/2.5/3 x statistic-interval kinds default / reused views / whole array / standalone windows shorter, unaligned and longer than the array; two rules in both orders; associated-resource rules) a BFS over all histories of requests (batch 1/2/4 on the guarded and the referenced resource) and clock advances (1, bucket+-1, window+-1, array, array+1, >3 arrays) to the depth bound through the real api.Entry; every decision, TriggeredRule and TriggeredValue is compared with the admitted-token reference; concurrent: ALL interleavings of 2-3 callers x 1-2 requests at admission-path granularity (scheduling points only at request start and between the rule-check and statistic phases); distinct outcome = configuration + decision/value vector",
     "assumptions": [A_CLOCK, A_OVERLAY, "the bucket length of a rule's window follows the documented policy of generateStatFor (mirrored in the reference as a function of the interval and the global geometry)", "concurrent clause: clock frozen, scaled geometry (4 x 10 ms array)"],
-    "budget_quick": 90,
+    "budget_quick": 240,
     "budget_thorough": 1200,
     "text": "Explicit-state exploration of arrival histories through the real entry path against an exact reference (both directions: no over-admission, no spurious rejection, reported rule and value), plus exhaustive admission-path interleavings of k concurrent callers with the (k-1)*maxBatch excess bound.",
     "level_note": "Bounded depth (6/8 on the scaled geometry, 4/6 on the default 20 x 500 ms geometry) and finite grids; admission-path (not atomic-access) granularity for the concurrent clause, as the property states.",
@@ -43,7 +43,7 @@ META["C04"] = {
     "level": "model_checking",
     "rule": "sequential: per rule set (thresholds 0,1,2,3,2^32-1; one or two rules on a resource in both orders; a second resource) BFS over all histories of Entry(resource, batch in {1,2,N,N+1,2^31,2^32-2,2^32-1}) and Exit of any live entry (<=4 live) to the depth bound; every decision, TriggeredRule/Value and the in-flight gauge are compared with an unbounded-integer reference; concurrent: ALL interleavings of 2-3 callers x 1-2 entries at admission-path granularity (points at request start, between check and statistic phase, before each exit), entries exited at once or held to the end; distinct outcome = configuration + decision vector + peak in-flight",
     "assumptions": [A_CLOCK, A_OVERLAY],
-    "budget_quick": 60,
+    "budget_quick": 240,
     "budget_thorough": 600,
     "text": "Explicit-state exploration of entry/exit histories through the real api.Entry against an exact in-flight reference, and exhaustive admission-path interleavings of k callers with the N+(k-1) bound and decision-by-gauge-at-check oracle.",
     "level_note": "Bounded depth (7 quick / 9 thorough), at most 4 live entries, 2 resources; admission-path granularity for the concurrent clause as the property states.",
@@ -54,7 +54,7 @@ META["C01"] = {
     "level": "model_checking",
     "rule": "sequential: BFS over all histories (to the depth bound, <=3 entry slots, pool-miss deviations <=1) of Entry(resource outbound r1 / inbound r2, batch 1/3, args none/[A]/[B]/[unhashable value that makes the hotspot rule check panic], custom-chain flags that make a prepare / rule-check slot panic), TraceError(slot) on live and exited entries, Exit(slot), Exit(slot, WithError), repeated Exit, clock advances 7/600 ms, on the global chain and on a custom chain with a recording statistic slot; after EVERY operation: gauge of every node = ledger in-flight, all five window sums of r1, r2 and the inbound node = ledger, every live entry's error / args / resource / batch are its own, recording slot heard exactly the expected callbacks; concurrent: all schedules with <=1 (quick) / <=2 (thorough) preemptions of 2 threads Entry->[TraceError]->Exit at atomic-access granularity; distinct outcome = chain + answer vector",
     "assumptions": [A_CLOCK, A_OVERLAY, A_SHIM, "sync.Pool is modelled as a LIFO free list; a pool miss (GC, other P) is an explicit environment answer with a deviation budget of 1", "panics inside user statistic slots / exit handlers are outside the domain (property text)", "an entry during whose admission an internal panic was contained carries that panic as its error (implementation convention, mirrored)"],
-    "budget_quick": 90,
+    "budget_quick": 240,
     "budget_thorough": 1200,
     "text": "Explicit-state exploration of entry lifecycles through the real api.Entry / TraceError / Exit against a ledger and the window reference, including pool reuse between different entries, late and repeated calls and contained panics; plus preemption-bounded interleavings of two complete entry lifecycles.",
     "level_note": "Bounded depth (5 quick / 7 thorough), three entry slots, two resources; concurrent clause limited to 2 threads and 1-2 preemptions.",
@@ -65,7 +65,7 @@ META["C06"] = {
     "level": "model_checking",
     "rule": "sequential: per rule configuration (general threshold 0/1/2, specific items A->0/1, B->2, value selected by index 0, index -1 or attachment key, second resource with its own rule) BFS over all histories of Entry(resource, value A/B/none) and Exit of any live entry (<=4 live, pool-miss deviations <=1) to the depth bound; every decision is compared with 'live(v) < threshold(v)', the per-value counters read through an accessor are compared with the true live count after EVERY operation, and each live entry's context must still carry the value it was admitted with; concurrent: all schedules with <=1 (quick) / <=2 (thorough) preemptions of 2-3 threads Entry(v)->Exit at atomic-access granularity with conservation bounds at every probe and zero at the end",
     "assumptions": [A_CLOCK, A_OVERLAY, A_SHIM, "sync.Pool modelled as LIFO with an explicit miss answer (budget 1)", "under concurrency only conservation is asserted (the statement gives no k-1 allowance for the check-then-record window)"],
-    "budget_quick": 60,
+    "budget_quick": 240,
     "budget_thorough": 900,
     "text": "Explicit-state exploration of per-value entry/exit histories through the real api.Entry with the private per-value counters observed after every step, plus preemption-bounded interleavings of concurrent lifecycles.",
     "level_note": "Bounded depth (7 quick / 9 thorough), two values, two resources, capacity never exceeded.",
@@ -76,7 +76,7 @@ META["C03"] = {
     "level": "model_checking",
     "rule": "per breaker configuration (3 strategies x thresholds {0,0.5,1} / {1,2,1.5} x minimum amount {0,2,3} x retry timeout {5,10} x window (10 ms/1 bucket, 20/2, 20/3->1) x probe number {0,1,2}; four two-breaker lists) a BFS over all histories of start / done(slot, ok|err) / clock advances {1,4,retry-1,retry,bucket,interval,interval+1} (<=3 requests in flight, slow = virtual duration > 3 ms) to the depth bound through the real api.Entry; after EVERY operation the decision and TriggeredRule, the listener callbacks of that operation and every breaker's private state are compared with a three-state reference machine; distinct outcome = configuration + operation + answer + callbacks",
     "assumptions": [A_CLOCK, A_OVERLAY, "single goroutine (concurrency is C12)", "while half-open with a probe number > 0 every request is admitted as a probe (the code's documented ProbeNum semantics)", "completions recorded while open cannot influence a later decision (statistics are cleared on close), so the reference records them too"],
-    "budget_quick": 90,
+    "budget_quick": 240,
     "budget_thorough": 1500,
     "text": "Explicit-state exploration of time-stamped request histories through the real entry path against a reference state machine, with listener log and private breaker state compared on every transition.",
     "level_note": "Bounded depth (7 quick / 10 thorough; 6 / 8 with two breakers), finite configuration grid, <=3 requests in flight.",
@@ -87,7 +87,7 @@ META["C12"] = {
     "level": "model_checking",
     "rule": "scenario = strategy (3) x initial breaker state (closed / open with the timeout elapsed / freshly open / half-open, reached sequentially on a real breaker installed by LoadRules) x probe number x thread programs (2-3 threads, 1-2 steps each of failing completion, successful completion, TryPass, clock tick of one retry timeout / 1 ms); for each scenario ALL interleavings at atomic-access granularity are enumerated (stateless DFS, global state key, shared-location reduction, fair scheduling); oracle per execution: multiset of listener callbacks = multiset of successful writes to the state word (observed by the shim, with previous value), the writes form a legal path, no Open->HalfOpen earlier than a full retry timeout after the write that opened the breaker (virtual clock at the write itself), every TryPass answer justified by the state value it loaded and by whether it won the probe transition; distinct outcome = scenario + write sequence + answers",
     "assumptions": [A_SHIM, A_CLOCK, A_OVERLAY, "breaker driven directly through TryPass / OnRequestComplete (the calls the slots make)"],
-    "budget_quick": 90,
+    "budget_quick": 240,
     "budget_thorough": 900,
     "text": "Exhaustive enumeration of all interleavings of 2-3 threads around every breaker transition on the real code, judged against the ground-truth sequence of state-word writes.",
     "level_note": "2-3 threads, 1-2 steps each, at most 2 clock ticks; sequentially consistent atomics.",
@@ -98,7 +98,7 @@ META["C10"] = {
     "level": "model_checking",
     "rule": "sequential: per configuration (threshold 0/0.5/1/2/3/1000 x interval 1000 ms/10 ms/default x max queueing 0/1/500/1000 ms x sleep advances the clock or not) BFS over all arrival histories (requests of batch 1/2, clock advances of 1 ns, half / one-less / exactly / one-more / three spacings, the queueing limit +-1 ns) to the depth bound through api.Entry; pass time = arrival + requested sleep; oracle: spacing to the previous pass time >= batch*interval/threshold (exact), wait <= limit, every rejection justified; concurrent: ALL interleavings of 2-4 threads calling ThrottlingChecker.DoCheck (1-2 calls each) with clock ticks as thread steps at atomic-access granularity; oracle on the sorted pass times (arrival = the value the call itself read from the clock), waits, and rejections justified under some linearisation; distinct outcome = configuration + answer vector",
     "assumptions": [A_SHIM, A_CLOCK, A_OVERLAY, "the required spacing is rounded up to whole nanoseconds when a rejection is judged (time is in ns)"],
-    "budget_quick": 90,
+    "budget_quick": 240,
     "budget_thorough": 900,
     "text": "Explicit-state exploration of nanosecond arrival histories through the real entry path, plus exhaustive interleavings of concurrent DoCheck callers and clock ticks on the real checker.",
     "level_note": "Bounded depth (7 quick / 10 thorough); concurrent clause: 2-4 threads, <=2 calls each, <=2 ticks, sequentially consistent atomics.",
@@ -109,7 +109,7 @@ META["C11"] = {
     "level": "exploration",
     "rule": "warm-up: per configuration (threshold 0/0.5/1/2/3/5/10/100 x period 1/2/5/10 s x cold factor default/2/3/5/10) BFS over all demand programs built from {burst of ceil(T)+3 simultaneous requests, steady 1 req/100 ms for 1 s, idle 1 s, idle until certainly cold, saturating demand for 2*period+3 s, patient single-token demand for period+2 s} to the depth bound, through api.Entry in virtual time; oracles on every request (effective threshold finite, >= 0, <= configured; admitted tokens per aligned window <= threshold) and per program step (cold burst <= ceil(T/cold)+1, last second of saturation >= floor(T), patient demand not starved when T >= 1); memory-adaptive: exhaustive grid of rules x memory readings around both water marks, calculator value and the number of requests really admitted; distinct = configuration + answers",
     "assumptions": [A_CLOCK, A_OVERLAY, "'about threshold/coldFactor' is read as <= ceil(threshold/coldFactor)+1 admitted at once; 'after sustained demand for the warm-up period' is judged after 2*period+3 s of saturating demand (generous on purpose)"],
-    "budget_quick": 90,
+    "budget_quick": 240,
     "budget_thorough": 900,
     "text": "Bounded exhaustive exploration of demand programs against envelope inequalities (no exact reference exists for the warm-up curve), plus an exhaustive finite grid for the memory-adaptive interpolation.",
     "level_note": "Envelope oracles only; depth 4 (quick) / 6 (thorough) programs over 6 demand primitives.",
@@ -120,7 +120,7 @@ META["C05"] = {
     "level": "exploration",
     "rule": "four configuration families (F1 reject: threshold 0-3 x burst 0-2 x duration 1-2 s x specific item none / A->0 / A->5; F2 throttling: threshold 1/2/3/1500 x duration x max queueing 0/1/500/1000 ms x sleep answer; F3 argument selection by index 0/1/-1/-3/5 or attachment key with string / int / bool / float / struct values; F4 capacity 1-2 below the number of values); per configuration BFS over all multi-value arrival histories (requests for 2-6 values with batch 1/2, requests without the selected argument, clock advances 1/399/500/999/1000/1001/2001 ms) to the depth bound through api.Entry; oracles: envelope inequalities per value (long-run, per-duration, idle-value grant, spacing in exact integer arithmetic, wait < limit), requests without the argument never limited, and a DIFFERENTIAL independence oracle: every request is mirrored on a private resource with the same rule that only ever sees that value and both decisions and waits must agree; distinct = configuration + answer vector",
     "assumptions": [A_CLOCK, A_OVERLAY, "NaN float keys and unhashable arguments are outside the alphabet (C01 covers the panic path)", "with capacity below the number of live values only per-request bounds are asserted (the statement conditions independence on capacity)"],
-    "budget_quick": 90,
+    "budget_quick": 240,
     "budget_thorough": 1200,
     "text": "Bounded exhaustive exploration of multi-value histories with envelope and differential oracles (the hotspot token algorithm has no exact reference in the statement).",
     "level_note": "Envelope oracles; depth 6 quick / 8 thorough; finite configuration grid.",
@@ -131,7 +131,7 @@ META["C13"] = {
     "level": "model_checking",
     "rule": "per rule module (flow, isolation, hotspot, circuit breaker, system, outlier) BFS over all sequences to the depth bound of LoadRules(list) / LoadRulesOfResource(res, list) / ClearRules / ClearRulesOfResource / identical reload, where list ranges over a catalogue of 13-29 lists built from 3 valid rules on resource a, one on b, ONE INVALID VARIANT PER CLAUSE of the module's IsValidRule and nil elements, every call with freshly allocated objects; after every operation the getters are compared with 'valid rules of the most recent load per resource, in order' (validity decided by the module's own exported IsValidRule); after the last operation of every path each resource is probed with traffic (batches / values / failing requests chosen so that any enforced rule, valid or not, shows through TriggeredRule); distinct = module + answers",
     "assumptions": [A_CLOCK, A_OVERLAY, "rules whose Resource differs from the res argument of a per-resource load are outside the alphabet", "outlier: getters only (its enforcement is exercised by C20)", "probes run only after the last operation of a path, so they never disturb a successor state"],
-    "budget_quick": 90,
+    "budget_quick": 240,
     "budget_thorough": 900,
     "text": "Explicit-state exploration of load/clear sequences on the real rule managers against a reference of the statement, with getters checked on every transition and enforcement probed in every reached state.",
     "level_note": "Depth 3 (quick) / 4 (thorough) operations over 20-50 operations per module; finite catalogue of rule lists.",
@@ -142,7 +142,7 @@ META["C14"] = {
     "level": "exploration",
     "rule": "metamorphic enumeration: for each subject rule kind with runtime state (flow reject with a standalone window, flow throttling, flow warm-up, circuit breaker open / half-open, hotspot QPS tokens, hotspot concurrency counters) x every initial list x EVERY traffic history over the subject's alphabet up to the depth bound x EVERY position of a reload x every edit of the rest of the list (pure reload, other rule added before / after, other rule modified, third rule added, duplicate of the unchanged rule, a modified copy of it placed before / after it) x both load paths: the decision trace (decisions and requested waits) with the reload must equal the trace of the same history without it; plus count references for 'a modified rule with unchanged statistic parameters keeps its statistics'; distinct = subject + baseline trace",
     "assumptions": [A_CLOCK, A_OVERLAY, "the other rules of the list are permissive (thresholds around 1e9) so that they cannot change a decision themselves; duplicates / modified copies are only used for subjects where a fresh copy cannot be stricter than the aged rule"],
-    "budget_quick": 90,
+    "budget_quick": 240,
     "budget_thorough": 1200,
     "text": "Exhaustive metamorphic comparison of the implementation with itself over all bounded histories and reload positions.",
     "level_note": "History depth 5 (quick) / 6-7 (thorough); the subject alphabets are small (3-6 operations).",
@@ -153,7 +153,7 @@ META["C16"] = {
     "level": "exploration",
     "rule": "exhaustive enumeration of slot-chain programs: all chains of <=2 (quick) / <=3 (thorough) prepare slots, <=3 rule-check slots and <=2 / <=3 statistic slots, each slot with order value 0 or 1 (all collisions, insertion order recorded) and every behaviour (prepare: ok / panic; rule-check: nil / pass result / block with an own result / block by mutating the pooled result / panic; statistic: record / panic in OnEntryPassed / OnEntryBlocked / OnCompleted), with or without a panicking exit handler, followed by 0-2 entries on other chains that recycle the pooled context and result; the call log and the returned *BlockError (before and after the follow-up traffic) are compared with the statement; distinct = call log",
     "assumptions": [A_CLOCK, A_OVERLAY, "LIFO pool (the recycled context is really reused by the follow-up entries)", "after a panic only 'no panic reaches the caller and the request is admitted' is asserted (the statement says 'absent panics' for the callback clauses)"],
-    "budget_quick": 90,
+    "budget_quick": 240,
     "budget_thorough": 900,
     "text": "Complete enumeration of all small slot chains and slot behaviours on the real SlotChain / api.Entry / Exit.",
     "level_note": "Finite program space enumerated completely up to the stated chain sizes.",
@@ -165,7 +165,7 @@ META["C15"] = {
     "race": True,
     "rule": "scenario = pair (or triple) of API callers on the real global state: request (Entry [+TraceError] + Exit) on resource a or b || LoadRules / LoadRulesOfResource(a) / LoadRulesOfResource(c) / ClearRules / ClearRulesOfResource(a) / GetRules / GetRulesOfResource for flow, isolation, hotspot and circuit breaker; two writers; first use of a resource from two goroutines; statistics getters || traffic; system and outlier rule management; for each scenario ALL schedules with at most 2 (quick) / 3 (thorough; 2 for the three-thread scenarios) preemptions at the granularity of every sync/atomic, lock and pool operation are executed in a binary built with -race whose scheduler hand-off is invisible to the detector; oracle: no new race report during the execution, no panic / deadlock, racing request decided by the old or the new list of its own resource (never a mixture), requests on another resource unaffected; distinct = scenario + observation vector",
     "assumptions": [A_SHIM, A_CLOCK, A_OVERLAY, "Go's race detector is the oracle for unsynchronised plain-memory accesses in the explored schedules; it reports a given pair of stacks once per process, so a race violation is recorded on first sight and reproduced by vcheck --replay in a fresh process", "same-entry concurrent calls (two goroutines calling Exit on one entry) are outside the scenarios"],
-    "budget_quick": 120,
+    "budget_quick": 240,
     "budget_thorough": 1500,
     "text": "Systematic (not sampled) schedule enumeration of pairs of public API calls with the race detector judging every explored schedule, plus old-or-new atomicity of rule switches.",
     "level_note": "2 threads (3 in a few scenarios), preemption bound 2 / 3: not 'every schedule the runtime can produce'; for race-free executions Go's DRF-SC guarantee makes the sequentially consistent exploration faithful.",
@@ -176,7 +176,7 @@ META["C07"] = {
     "level": "model_checking",
     "rule": "per rule set (none; each of 13 single rules: inbound QPS trigger 0/1/2, concurrency 0/1/2, average RT 0/3/5, load 1.0 and CPU 0.5 with and without BBR; 5-9 pairs; 2 triples) BFS over all histories to the depth bound of inbound entry / outbound entry / exit of any live entry (<=3 live, response time = virtual time in flight) / clock advances 2, 4, 500, 1000 ms / injected load 1.0, 1.5 / injected CPU 0.5, 0.8, through api.Entry; every decision is compared with the statement's predicate evaluated on a ref/window model of the inbound aggregate (QPS, in-flight, integer average RT, peak completion rate x minimum RT); outbound must never be system-blocked; the reported rule must be one of the violated ones; distinct = rule set + operation + answer",
     "assumptions": [A_CLOCK, A_OVERLAY, "estimated capacity is read as at least one request (BBR never rejects the only request in flight), the upstream BBR rule", "which violated rule is REPORTED depends on Go map order and is only required to be a violated one", "BaseStatNode.AvgRT integer average mirrored"],
-    "budget_quick": 90,
+    "budget_quick": 240,
     "budget_thorough": 900,
     "text": "Explicit-state exploration of inbound/outbound histories and injected readings through the real entry path against the statement's predicate on an independent aggregate model.",
     "level_note": "Depth 6 (quick) / 8 (thorough); triggers chosen just around the values reachable within the bound.",
@@ -187,7 +187,7 @@ META["C20"] = {
     "level": "model_checking",
     "rule": "(1) exhaustive pairs: node count 2..33 (quick) / 2..65 (thorough) x every percentage k/m (m<=20), 0.1*j and 0.333.., 0.666.. as float64, all failing nodes' breakers open: size of the filter list vs floor(p*n) in exact rational arithmetic on the float64's exact value; (2) per configuration (percentage 0 / 0.34 / 0.5 / 0.67 / 1, passive or active recovery with a scripted health-check answer) BFS over all histories to the depth bound of request-to-node-j succeeds / fails (3 nodes), clock advance by the retry timeout / the recycle interval, firing the oldest due VIRTUAL timer (time.AfterFunc in recycler / retryer is replaced by a recorded timer), identical rule reload, reload with another percentage, on a chain with the outlier slots; after every request the filter list (subset of rejecting nodes, size bound), the half-open list (= passively probed nodes) and every node's breaker state are compared with a per-node reference, and a fired recycle timer must not delete a node that completed successfully since it was scheduled; distinct = configuration + operation + lists",
     "assumptions": [A_CLOCK, A_OVERLAY, "the two background consumers (recycler / retryer channels) are synchronised by a marker-task barrier after every request (no deadline)", "which of the rejecting nodes are filtered depends on Go map order; only membership and size are asserted", "active-recovery timers: the reference re-reads the breaker state after a reconnection (weaker oracle for that mode)"],
-    "budget_quick": 90,
+    "budget_quick": 240,
     "budget_thorough": 900,
     "text": "Exhaustive (n, p) grid with an exact-rational oracle plus explicit-state exploration of per-node success/failure histories with virtual timers.",
     "level_note": "Depth 6 (quick) / 8 (thorough), 3 nodes; node counts up to 33 / 65.",
@@ -198,7 +198,7 @@ META["C17"] = {
     "level": "fault_enumeration",
     "rule": "per configuration (file size limit 60 B = one line / 200 B = three lines / 1 MiB x file count limit 1/2/3) EVERY write history up to the depth bound over {second step +0 / +1 / +2 / +1 day} x {batch of 1 or 2 items} is executed on the real writer in memory-backed scratch space; on the resulting directory every single query (all [begin,end] over the written seconds +-1 x resource '' / A / B; from-time x max lines 1/2/100) on a fresh searcher and, for histories of length <=3, every pair (first query from a reduced set, second from the full set) on ONE searcher is compared with the retained accepted items (order, duplicates, field-exact); for histories up to the cut depth the last non-empty data file and, separately, its index file are truncated at EVERY byte offset and the reduced query set is re-run: no error, no panic, only written items, every range-query item whose line and index entry lie before the cut; distinct = configuration + file count + retained items",
     "assumptions": [A_CLOCK, "the metric log package is not instrumented (single goroutine)", "crash model: a prefix of the last data file or of its index file at any byte (not reordered or partially persisted pages across both files)", "resource names without the field separator or line breaks"],
-    "budget_quick": 120,
+    "budget_quick": 240,
     "budget_thorough": 1500,
     "text": "Exhaustive write histories on the real writer with exhaustive query sets, plus every truncation point of the newest data and index file.",
     "level_note": "Write depth 3 (quick) / 5 (thorough); cut points for histories up to depth 2 / 3.",
@@ -209,7 +209,7 @@ META["C18"] = {
     "level": "exploration",
     "rule": "per rule handler (flow, system, circuit breaker, hotspot, isolation) BFS over all delivery sequences to the depth bound over {three valid arrays of 1-2 rules in the wire format (one containing an invalid rule), [], empty payload, [null], [valid,null], [1], [\"x\"], {}, null, wrongly typed field, rules pre-loaded through the API}; in every reached state EVERY proper prefix of a valid two-rule payload (200-500 truncated JSON texts) is delivered as a one-step probe; oracle: never a panic; undecodable => error and rules unchanged; decodable => getters equal the valid rules of the payload (validity by the module's IsValidRule); empty => cleared; plus the wire round trip of each module and, for the file datasource, every sequence (depth 3/4) of write / truncate / chmod / atomic replace / rename-away / remove events injected through a fake fsnotify watcher with rendez-vous barriers; distinct = handler + answer",
     "assumptions": [A_CLOCK, A_OVERLAY, "decodability is decided by encoding/json on the module's wire type (the statement's 'a payload that decodes to a rule list')", "file datasource: events are injected in order through a replacement of the fsnotify watcher; removal / rename-away are terminal events (the consumer goroutine stops), awaited by a bounded number of scheduler yields, not by wall time"],
-    "budget_quick": 90,
+    "budget_quick": 240,
     "budget_thorough": 600,
     "text": "Bounded exhaustive exploration of payload delivery sequences with exhaustive truncation probes, and of file event sequences.",
     "level_note": "Delivery depth 3 (quick) / 4 (thorough); 'all byte strings' is covered by classes plus every truncation of one valid payload per handler.",
